@@ -141,7 +141,7 @@ def run_c10(unit):
     (npos, nkwo), maxpos, maxkw = _scope(mode)
     shape = S.shapes(npos, nkwo)[idx]
     entered = []
-    cfgs = [c for c in K.configs(include_builtin_hash=False) if K.info_preserving(c, shape)]
+    cfgs = [c for c in K.configs(include_builtin_hash=False, include_named_encoding=True) if K.info_preserving(c, shape)]
     kms = [K.make_keymap(c) for c in cfgs]
     out = {'evaluations': 0, 'distinct': 0, 'violations': [], 'samples': [], 'counters': {'calls': 0}}
     _, I, _ = K._mods()
